@@ -490,6 +490,10 @@ func genC11BaseMode(r *Rng, farFuture bool) (*Plan, *HistGen) {
 				ne.Validity.Duration = Pick(r, []string{"4y", "3y6m", "2y", "200y"})
 			case e.Validity.Duration == "2d":
 				ne.Validity.Duration = Pick(r, []string{"3d", "1d", "20y"})
+				if r.Chance(1, 3) {
+					// not yet valid, but unexpired: starts next year
+					ne.Validity = &ValSpec{From: dateStr(start.AddDate(1, 0, 0)), Until: dateStr(start.AddDate(3, 0, 0))}
+				}
 			default:
 				continue
 			}
